@@ -296,6 +296,26 @@ func selftest(verbose bool) error {
 		}
 		expect("atomic-value/"+tc.fn, len(atomicValueStoresOfInterfaces(f)) > 0, tc.bad)
 	}
+	for _, tc := range []struct {
+		fn  string
+		bad bool
+	}{{"PresizeOk", false}, {"PresizeBad", true}} {
+		f := u.Func(fx, tc.fn)
+		if f == nil {
+			return fmt.Errorf("fixture %s missing", tc.fn)
+		}
+		expect("presized-append/"+tc.fn, len(presizedThenAppended(f)) > 0, tc.bad)
+	}
+	{
+		opt := optionalMethodsOf(u, fx, "Metastore")
+		hid := hidingWrappers(u, fx, "Metastore", opt)
+		names := map[string]bool{}
+		for _, h := range hid {
+			names[h.Obj().Name()] = true
+		}
+		expect("hidden-optional/wrapOk", names["wrapOk"], false)
+		expect("hidden-optional/wrapBad", names["wrapBad"] && len(opt) == 1, true)
+	}
 	if len(fails) > 0 {
 		return fmt.Errorf("%s", strings.Join(fails, "; "))
 	}
